@@ -1252,7 +1252,7 @@ class SMPose(SMUserList):
 
         :seealso: :meth:`__sub__`
         """
-        return -left.__sub__(right)
+        return left._op2(right, lambda x, y: y - x)
 
     def __isub__(left, right):  # lgtm[py/not-named-self] pylint: disable=no-self-argument
         """
